@@ -127,6 +127,7 @@ TObserve ==
   /\ IsEvent("Observe") /\ PostNow(E.r) /\ UNCHANGED vars
   /\ E.nlocal = Count(db[E.r].ops, IsChange)       \* num_local_operations
   /\ E.nundo = Count(db[E.r].ops, IsUndoPoint)     \* num_undo_points
+  /\ DepMapAsStored(db[E.r], E)                    \* dependency map and BLOCKED/BLOCKING (C19)
   \* get_task_operations(u): the task's synchronised and unsynchronised operations, in order
   /\ \A i \in DOMAIN E.taskops :
        /\ JOpsOK(E.taskops[i][2])
